@@ -212,13 +212,13 @@ fn schedule_strategy() -> BoxedStrategy<(Vec<Step>, u32)> {
     (steps, tail).boxed()
 }
 
-fn case_strategy(tier: Tier) -> BoxedStrategy<Case> {
+pub fn case_strategy(tier: Tier) -> BoxedStrategy<Case> {
     (data_strategy(tier), schedule_strategy())
         .prop_map(|(d, (schedule, tail_chunk))| Case { data: B(d), schedule, tail_chunk })
         .boxed()
 }
 
-fn fault_strategy(tier: Tier) -> BoxedStrategy<Case> {
+pub fn fault_strategy(tier: Tier) -> BoxedStrategy<Case> {
     (data_strategy(tier), schedule_strategy(), any::<u16>(), any::<u8>())
         .prop_map(|(d, (mut schedule, tail_chunk), pos, k)| {
             // place the hard error among the read calls that happen before EOF is reached
@@ -441,10 +441,11 @@ pub fn property() -> Property {
             random_stream("schedules", "data x read schedule (short reads, Interrupted)", case_strategy, |t| t.pick(8_000, 300_000), check),
             random_stream("faults", "data x read schedule with one hard I/O error", fault_strategy, |t| t.pick(4_000, 150_000), check),
             enumerated_stream("names", "all case variants of the six names + near misses", names, check_name),
+            crate::fuzz::replay_stream(),
         ],
         selfcheck: m::selfcheck,
         hang_is_violation: false,
         min_nontrivial_share: 0.2,
-        extra: None,
+        extra: Some(crate::fuzz::extra),
     }
 }
